@@ -374,6 +374,7 @@ type gcfg struct {
 	highBytes    bool // literals >= 0x80
 	ciMode       int  // 0 none, 1 all, 2 mixed
 	groups       int
+	shape        string
 }
 
 const litLetters = "abcABC"
@@ -568,6 +569,12 @@ func genPattern(t *rapid.T, cfg *gcfg) *node {
 	cfg.ciMode = []int{0, 0, 0, 0, 0, 0, 0, 1, 2, 2}[uni(t, 10, "cimode")]
 	shape := uni(t, 100, "shape")
 	var n *node
+	if shape >= 76 { // \A-anchored choices over a tiny letter pool, case modes mixed
+		cfg.shape = "anchored_choice"
+		n = genAnchoredChoice(t, cfg)
+		n.number()
+		return n
+	}
 	switch {
 	case shape < 8: // pure literal
 		n = &node{kind: kCat}
@@ -606,6 +613,206 @@ func genPattern(t *rapid.T, cfg *gcfg) *node {
 	}
 	n.number()
 	return n
+}
+
+// genAnchoredChoice: \A followed by a few elements that are choices (alternation
+// groups, ? * +) between short literal runs drawn from a pool of one to three
+// letters in both cases, each literal independently case sensitive or under
+// (?i). The continuations of a choice therefore often begin with the same
+// letter in different case modes: the neighbourhood where the first-character
+// analysis of the one-pass path decides between "disjoint" and "overlapping".
+func genAnchoredChoice(t *rapid.T, cfg *gcfg) *node {
+	pool := pick(t, []string{"a", "a", "ab", "ab", "aq", "abq", "ay1", "xq"}, "pool")
+	if uni(t, 5, "ciforce") != 0 {
+		cfg.ciMode = 2
+	}
+	lit := func() *node {
+		c := pool[uni(t, len(pool), "poolc")]
+		if uni(t, 2, "upper") == 0 {
+			c = upperB(c)
+		}
+		ci := cfg.ciMode == 1 || (cfg.ciMode == 2 && uni(t, 2, "ci") == 0)
+		return &node{kind: kLit, c: c, ci: ci}
+	}
+	run := func(maxLen int) *node {
+		k := 1 + uni(t, maxLen, "runlen")
+		if k == 1 {
+			return lit()
+		}
+		c := &node{kind: kCat}
+		for i := 0; i < k; i++ {
+			c.sub = append(c.sub, lit())
+		}
+		return c
+	}
+	quant := func(body *node) *node {
+		q := &node{kind: kQuant, sub: []*node{body}, lazy: uni(t, 8, "lazy") == 0}
+		switch uni(t, 3, "qop") {
+		case 0:
+			q.min, q.max = 0, 1
+		case 1:
+			q.min, q.max = 0, -1
+		default:
+			q.min, q.max = 1, -1
+		}
+		return q
+	}
+	elem := func() *node {
+		switch w := uni(t, 20, "elem"); {
+		case w < 4:
+			return lit()
+		case w < 9:
+			return quant(lit())
+		case w < 15: // alternation of short runs, sometimes repeated
+			a := &node{kind: kAlt}
+			for i, k := 0, 2+uni(t, 2, "nalt"); i < k; i++ {
+				a.sub = append(a.sub, run(3))
+			}
+			g := group(cfg, a)
+			if uni(t, 3, "altq") == 0 {
+				return quant(g)
+			}
+			return g
+		case w < 18:
+			return quant(group(cfg, run(2)))
+		default:
+			n := &node{kind: kClass, ci: cfg.ciMode == 2 && uni(t, 2, "ci") == 0}
+			for i, k := 0, 1+uni(t, 2, "nitems"); i < k; i++ {
+				l := lit()
+				n.items = append(n.items, citem{typ: 0, lo: l.c})
+			}
+			if uni(t, 3, "clsq") == 0 {
+				return quant(n)
+			}
+			return n
+		}
+	}
+	c := &node{kind: kCat, sub: []*node{{kind: kBos}}}
+	for i, k := 0, 1+uni(t, 4, "nelems"); i < k; i++ {
+		c.sub = append(c.sub, elem())
+	}
+	if uni(t, 5, "eos") < 2 {
+		c.sub = append(c.sub, &node{kind: kEos})
+	}
+	return c
+}
+
+// firstSet: the bytes that can start a match of n (anchors are transparent),
+// and whether n can match without consuming. foldCase=false ignores (?i).
+func firstSet(n *node, foldCase bool) (set [256]bool, empty bool) {
+	switch n.kind {
+	case kLit, kDot, kClass, kShort:
+		m := *n
+		if !foldCase {
+			m.ci = false
+		}
+		for c := 0; c < 256; c++ {
+			set[c] = leafMatches(&m, byte(c), omOpts{})
+		}
+		return set, false
+	case kQuoted:
+		if n.s == "" {
+			return set, true
+		}
+		return firstSet(&node{kind: kLit, c: n.s[0], ci: n.ci}, foldCase)
+	case kGroup:
+		return firstSet(n.sub[0], foldCase)
+	case kQuant:
+		set, empty = firstSet(n.sub[0], foldCase)
+		return set, empty || n.min == 0
+	case kAlt:
+		for _, a := range n.sub {
+			s, e := firstSet(a, foldCase)
+			for c := range set {
+				set[c] = set[c] || s[c]
+			}
+			empty = empty || e
+		}
+		return set, empty
+	case kCat:
+		return firstOfSeq(n.sub, foldCase)
+	}
+	return set, true // empty and zero-width assertions
+}
+
+func firstOfSeq(list []*node, foldCase bool) (set [256]bool, empty bool) {
+	for _, x := range list {
+		s, e := firstSet(x, foldCase)
+		for c := range set {
+			set[c] = set[c] || s[c]
+		}
+		if !e {
+			return set, false
+		}
+	}
+	return set, true
+}
+
+func setsOverlap(a, b [256]bool) bool {
+	for c := range a {
+		if a[c] && b[c] {
+			return true
+		}
+	}
+	return false
+}
+
+// choiceOverlap classifies the choice points of a pattern (alternation
+// branches against each other; the body of ? * + against what follows it in
+// the enclosing sequence): overlap = some choice has continuations that can
+// start with the same byte; onlyByCase = for some choice that is so only
+// because of (?i) (with case folding ignored the first bytes are disjoint).
+func choiceOverlap(n *node) (choices int, overlap, onlyByCase bool) {
+	judge := func(a, b []*node) {
+		choices++
+		fa, _ := firstOfSeq(a, true)
+		fb, _ := firstOfSeq(b, true)
+		if !setsOverlap(fa, fb) {
+			return
+		}
+		overlap = true
+		ra, _ := firstOfSeq(a, false)
+		rb, _ := firstOfSeq(b, false)
+		if !setsOverlap(ra, rb) {
+			onlyByCase = true
+		}
+	}
+	var visit func(x *node, follow []*node)
+	visit = func(x *node, follow []*node) {
+		switch x.kind {
+		case kAlt:
+			for i := range x.sub {
+				for j := i + 1; j < len(x.sub); j++ {
+					judge(append([]*node{x.sub[i]}, follow...), append([]*node{x.sub[j]}, follow...))
+				}
+				visit(x.sub[i], follow)
+			}
+		case kQuant:
+			judge([]*node{x.sub[0]}, follow)
+			f := follow
+			if x.max < 0 {
+				f = append([]*node{x}, follow...)
+			}
+			visit(x.sub[0], f)
+		case kGroup:
+			visit(x.sub[0], follow)
+		case kCat:
+			for i, s := range x.sub {
+				visit(s, append(append([]*node{}, x.sub[i+1:]...), follow...))
+			}
+		}
+	}
+	visit(n, nil)
+	return
+}
+
+// startsWithBos: the pattern begins with \A (then a random prefix in the
+// subject only produces trivial non-matches).
+func startsWithBos(n *node) bool {
+	for n.kind == kCat && len(n.sub) > 0 {
+		n = n.sub[0]
+	}
+	return n.kind == kBos
 }
 
 // ---------------------------------------------------------------- subjects
@@ -693,13 +900,25 @@ func randStr(ch *chooser, alpha string, maxLen int) string {
 // genSubject: half of the subjects embed a sample of the pattern.
 func genSubject(t *rapid.T, n *node, alpha string, opt omOpts) string {
 	ch := newChooser(t)
-	mode := uni(t, 10, "subjmode")
+	mode := uni(t, 12, "subjmode")
 	var s string
 	switch {
 	case mode < 5:
-		s = randStr(ch, alpha, 4) + sample(n, ch, alpha, opt) + randStr(ch, alpha, 4)
+		pre := randStr(ch, alpha, 4)
+		if startsWithBos(n) && ch.n(4) != 0 {
+			pre = ""
+		}
+		s = pre + sample(n, ch, alpha, opt) + randStr(ch, alpha, 4)
 	case mode < 7:
 		s = sample(n, ch, alpha, opt)
+	case mode >= 10: // upper/lower variants of the pattern's own text
+		b := []byte(sample(n, ch, alpha, opt))
+		for i := range b {
+			if ch.n(3) == 0 {
+				b[i] = flipCase(b[i])
+			}
+		}
+		s = string(b) + randStr(ch, alpha, 2)
 	case mode < 8: // sample with one byte changed
 		b := []byte(randStr(ch, alpha, 2) + sample(n, ch, alpha, opt) + randStr(ch, alpha, 2))
 		if len(b) > 0 {
